@@ -241,6 +241,9 @@ def random_config(rng):
         "n_smooth": rng.choice([0, 0, 0, 1, 3]),
         "cotan": rng.random() < 0.7,
         "smooth_normals": rng.random() < 0.6,
+        # the order in which the caller uses the public stage methods (every legal order must give the same field)
+        "protocol": rng.choice(["init_opt", "init_opt", "run", "run", "call", "init_run", "init_run", "init_call", "init_opt_run",
+                                "run_run", "opt_opt", "init_opt_ns_opt"]),
     }
 
 
